@@ -138,6 +138,17 @@ _WHERE = {
             "that aligns Python's unwinding with the program's Exit events, identity-based observation of sys.displayhook, CPython.",
             "TLA+ spec (DisplayHook) model-checked with TLC; TLC-generated programs replayed into the code; recorded runs "
             "validated by TLC trace spec (DHTrace)"),
+    "C10": ("deps", "C10",
+            "TLC checks on every dependency sequence up to the bound (names x multi-component versions x distinguishable "
+            "payloads) that the insertion-ordered-map fold of _resolve_dependencies equals the declarative reading "
+            "(one per name, highest version-number, earliest on ties, names by first occurrence), is idempotent and "
+            "commutes with nesting; every sequence is placed at random nesting in a real tree and TLC judges "
+            "get_dependencies() / dedup=False / render() against the declarative reading; every definition shape is "
+            "constructed and must be rejected exactly when the statement says.",
+            "Trusted: TLC/SANY, ResolveSpec/Collect/VLess/DefOk in spec/DepOps.tla, the harness's parse of str(version) "
+            "into release segments, CPython.",
+            "TLA+ spec (Deps/DepOps) model-checked with TLC; TLC-generated sequences and definitions replayed into the "
+            "code; recorded results validated by TLC trace spec (DepTrace)"),
 }
 
 NOT_YET = {}
